@@ -11,7 +11,8 @@ def classify(fl):
 SPEC = {
     "tables": ["PhaseTable"],
     "props_module": PROPS_MODULE,
-    "required": [],
+    "required": ["shot_refinement_partial", "refinement_invariant", "counts_invariant", "collapse_is_project_rescale",
+                 "weight_is_born", "collapse_exact", "measure_per_shot", "reset_per_shot"],
     "drivers": ["drv_c02"],
     "harness_bin": "c02",
     "eq": vlib.hexfloat_eq(1e-9),
